@@ -63,7 +63,7 @@ CLAIMED["C13"] = {
 
 CLAIMED["C05"] = {
     "text": "Coq theorems over a hand-written model of the dispatch (Model/QOps.v): every registered implementation of the three tables has a class (coverage, re-checked against the tables read from the decorators on every run); for ANY parametric data movement g and any number type, g applied to the dequantized tensor equals dequantizing the re-wrapped moved payload, and reshape / permute / slicing are such movements. Tie: tables and a fingerprint of the AST of every implementation and dispatch entry point. Random op programs (depth up to 8) run on the real tensors; after every step the result is compared with torch's op on the dequantized operands, exactly or with the per-class bound, and raising is compared with the float twin program.",
-    "note": "Trusted: Coq kernel; gen_ops.py; the hand-written class table (an implementation may change behaviour only by changing its AST, which breaks the fingerprint tie); torch as the oracle for the op on dequantized operands. PARTIAL: rescale / requant / sign classes have audit bounds, not theorems; contractions are C07's. Known findings F5 (neg of code -128) and F22 (where saturating) are reported as KNOWN-FINDING.",
+    "note": "Trusted: Coq kernel; gen_ops.py; the hand-written class table (an implementation may change behaviour only by changing its AST, which breaks the fingerprint tie); torch as the oracle for the op on dequantized operands. Rescale (mul / div by a scalar) and sign (neg, relu) classes are proved equal to the float operation in exact arithmetic (relu for a non-negative scale; refuted for a negative one = F25). PARTIAL: the requant class (softmax, where, add of unequal scales) and all float rounding are decided by the audit's per-class bounds; contractions are C07's. Known findings F5 (neg of code -128) and F22 (where saturating) are reported as KNOWN-FINDING.",
     "design": "6/C05",
     "technique": "Coq proof (movement algebra, table coverage) + AST-fingerprint tie + differential op-program runs",
 }
